@@ -1469,7 +1469,7 @@ def _coerce_to_expr_ast_arguments(
 
     if not elts:  # if this then just return whole source as empty tuple
         return Tuple(elts=elts, ctx=Load(), lineno=1, col_offset=0, end_lineno=len(lines),
-                     end_col_offset=len(lines[-1])), 2, True
+                     end_col_offset=lines[-1].lenbytes), 2, True
 
     e0 = elts[0]
     _, _, end_ln, end_col = ast.f.loc  # need to do this because of possible trailing comma
